@@ -30,14 +30,33 @@ impl de::Error for Error {
     }
 }
 
+/// How structs travel. `Positional`: the fields in order, nothing else (bincode, postcard).
+/// `IndexKeys`: a map keyed by the field's index as an integer (packed CBOR does this).
+/// `ByteKeys`: a map keyed by the field name as a byte string. A derived `Deserialize` accepts all of
+/// them; a hand-written field visitor that only implements `visit_str` does not.
+#[derive(Clone, Copy, Debug, PartialEq, Eq)]
+pub enum StructMode {
+    Positional,
+    IndexKeys,
+    ByteKeys,
+}
+
 pub fn to_vec<T: Serialize>(v: &T) -> Result<Vec<u8>, Error> {
-    let mut s = Ser { out: Vec::new() };
+    to_vec_mode(v, StructMode::Positional)
+}
+
+pub fn to_vec_mode<T: Serialize>(v: &T, mode: StructMode) -> Result<Vec<u8>, Error> {
+    let mut s = Ser { out: Vec::new(), mode };
     v.serialize(&mut s)?;
     Ok(s.out)
 }
 
 pub fn from_slice<'a, T: de::Deserialize<'a>>(b: &'a [u8]) -> Result<T, Error> {
-    let mut d = De { inp: b };
+    from_slice_mode(b, StructMode::Positional)
+}
+
+pub fn from_slice_mode<'a, T: de::Deserialize<'a>>(b: &'a [u8], mode: StructMode) -> Result<T, Error> {
+    let mut d = De { inp: b, mode };
     let v = T::deserialize(&mut d)?;
     if !d.inp.is_empty() {
         return Err(Error(format!("{} trailing bytes", d.inp.len())));
@@ -47,6 +66,12 @@ pub fn from_slice<'a, T: de::Deserialize<'a>>(b: &'a [u8]) -> Result<T, Error> {
 
 pub struct Ser {
     out: Vec<u8>,
+    mode: StructMode,
+}
+
+pub struct StructSer<'a> {
+    ser: &'a mut Ser,
+    idx: u32,
 }
 
 impl Ser {
@@ -72,7 +97,7 @@ impl<'a> ser::Serializer for &'a mut Ser {
     type SerializeTupleStruct = Self;
     type SerializeTupleVariant = Self;
     type SerializeMap = Self;
-    type SerializeStruct = Self;
+    type SerializeStruct = StructSer<'a>;
     type SerializeStructVariant = Self;
 
     fn serialize_bool(self, v: bool) -> Result<(), Error> {
@@ -158,8 +183,11 @@ impl<'a> ser::Serializer for &'a mut Ser {
             None => Err(Error("map of unknown length".into())),
         }
     }
-    fn serialize_struct(self, _name: &'static str, _len: usize) -> Result<Self, Error> {
-        Ok(self)
+    fn serialize_struct(self, _name: &'static str, len: usize) -> Result<StructSer<'a>, Error> {
+        if self.mode != StructMode::Positional {
+            self.len(len);
+        }
+        Ok(StructSer { ser: self, idx: 0 })
     }
     fn serialize_struct_variant(self, _name: &'static str, idx: u32, _variant: &'static str, _len: usize) -> Result<Self, Error> {
         self.out.extend_from_slice(&idx.to_le_bytes());
@@ -223,11 +251,25 @@ impl<'a> ser::SerializeMap for &'a mut Ser {
         Ok(())
     }
 }
-impl<'a> ser::SerializeStruct for &'a mut Ser {
+impl<'a> ser::SerializeStruct for StructSer<'a> {
     type Ok = ();
     type Error = Error;
-    fn serialize_field<T: ?Sized + Serialize>(&mut self, _key: &'static str, v: &T) -> Result<(), Error> {
-        v.serialize(&mut **self)
+    fn serialize_field<T: ?Sized + Serialize>(&mut self, key: &'static str, v: &T) -> Result<(), Error> {
+        match self.ser.mode {
+            StructMode::Positional => {}
+            StructMode::IndexKeys => self.ser.out.extend_from_slice(&self.idx.to_le_bytes()),
+            StructMode::ByteKeys => {
+                self.ser.len(key.len());
+                self.ser.out.extend_from_slice(key.as_bytes());
+            }
+        }
+        self.idx += 1;
+        v.serialize(&mut *self.ser)
+    }
+    fn skip_field(&mut self, _key: &'static str) -> Result<(), Error> {
+        // the index counts declared fields, skipped ones included
+        self.idx += 1;
+        Ok(())
     }
     fn end(self) -> Result<(), Error> {
         Ok(())
@@ -248,6 +290,61 @@ impl<'a> ser::SerializeStructVariant for &'a mut Ser {
 
 pub struct De<'de> {
     inp: &'de [u8],
+    mode: StructMode,
+}
+
+/// field key of the keyed struct modes
+enum Key<'de> {
+    Index(u64),
+    Bytes(&'de [u8]),
+}
+
+impl<'de> de::Deserializer<'de> for Key<'de> {
+    type Error = Error;
+    fn deserialize_any<V: Visitor<'de>>(self, visitor: V) -> Result<V::Value, Error> {
+        match self {
+            Key::Index(i) => visitor.visit_u64(i),
+            Key::Bytes(b) => visitor.visit_borrowed_bytes(b),
+        }
+    }
+    serde::forward_to_deserialize_any! {
+        bool i8 i16 i32 i64 i128 u8 u16 u32 u64 u128 f32 f64 char str string bytes byte_buf option unit
+        unit_struct newtype_struct seq tuple tuple_struct map struct enum identifier ignored_any
+    }
+}
+
+struct StructMap<'a, 'de> {
+    de: &'a mut De<'de>,
+    left: usize,
+}
+
+impl<'a, 'de> MapAccess<'de> for StructMap<'a, 'de> {
+    type Error = Error;
+    fn next_key_seed<K: DeserializeSeed<'de>>(&mut self, seed: K) -> Result<Option<K::Value>, Error> {
+        if self.left == 0 {
+            return Ok(None);
+        }
+        self.left -= 1;
+        let key = match self.de.mode {
+            StructMode::IndexKeys => {
+                let b = self.de.take(4)?;
+                let mut a = [0u8; 4];
+                a.copy_from_slice(b);
+                Key::Index(u32::from_le_bytes(a) as u64)
+            }
+            _ => {
+                let n = self.de.len()?;
+                Key::Bytes(self.de.take(n)?)
+            }
+        };
+        seed.deserialize(key).map(Some)
+    }
+    fn next_value_seed<V: DeserializeSeed<'de>>(&mut self, seed: V) -> Result<V::Value, Error> {
+        seed.deserialize(&mut *self.de)
+    }
+    fn size_hint(&self) -> Option<usize> {
+        Some(self.left)
+    }
 }
 
 impl<'de> De<'de> {
@@ -371,10 +468,15 @@ impl<'de, 'a> de::Deserializer<'de> for &'a mut De<'de> {
         fields: &'static [&'static str],
         visitor: V,
     ) -> Result<V::Value, Error> {
-        visitor.visit_seq(Counted {
-            de: self,
-            left: fields.len(),
-        })
+        if self.mode == StructMode::Positional {
+            visitor.visit_seq(Counted {
+                de: self,
+                left: fields.len(),
+            })
+        } else {
+            let n = self.len()?;
+            visitor.visit_map(StructMap { de: self, left: n })
+        }
     }
     fn deserialize_enum<V: Visitor<'de>>(
         self,
@@ -506,6 +608,25 @@ mod tests {
             for k in 0..bytes.len() {
                 assert!(from_slice::<S>(&bytes[..k]).is_err());
             }
+        }
+    }
+
+    #[test]
+    fn keyed_struct_modes_roundtrip() {
+        let s = S {
+            a: 7,
+            b: vec![1, 2, 3],
+            c: (4, 5),
+            d: None,
+            e: vec![vec![9]],
+            f: E::C { x: 1, y: vec![] },
+            g: false,
+            h: Default::default(),
+        };
+        for mode in [StructMode::IndexKeys, StructMode::ByteKeys] {
+            let bytes = to_vec_mode(&s, mode).unwrap();
+            let back: S = from_slice_mode(&bytes, mode).unwrap();
+            assert_eq!(s, back);
         }
     }
 
